@@ -61,7 +61,7 @@ Verdict eval_c03(const Scene &s) {
                 }
                 v.fail(fmt("connector %zu %s: %s; route %s", i, which ? "route()" : "displayRoute()", bad.c_str(), ptsStr(r).c_str()),
                        bad.find("[through two of its vertices]") != std::string::npos ? "F26-sight-line-through-two-vertices" :
-                       bad.find("mitred buffer polygon]") != std::string::npos ? "F37-endpoint-in-mitred-buffer-zone" :
+                       bad.find("mitred buffer polygon") != std::string::npos ? "F37-endpoint-in-mitred-buffer-zone" :
                        ((close && c.type == 1) ? "F22-polyline-invalid-route-among-close-shapes" : "invalid-route"));
             }
         }
